@@ -261,16 +261,6 @@ func (r *runner) tabExhaustive() {
 		n := int64(len(st.M))
 		vars := []variant{{kPlain, n}, {kNoLen, 0}}
 		for _, k := range []int{kFnProxy, kTabProxy, kChain} {
-			if !r.c.Thorough() && k != kFnProxy {
-				// quick tier: one __len per table-valued proxy kind
-				// (honest for tabproxy, one too long for chainproxy)
-				L := n
-				if k == kChain {
-					L = n + 1
-				}
-				vars = append(vars, variant{k, L})
-				continue
-			}
 			vars = append(vars, variant{k, n}, variant{k, n + 1})
 			if n > 0 {
 				vars = append(vars, variant{k, n - 1})
@@ -333,14 +323,22 @@ func (r *runner) tabExhaustive() {
 		// move: the length operator plays no role; plain and two proxy kinds,
 		// destinations: the table itself (implicit and explicit), another plain
 		// table, another proxy
+		// (quick tier: the element classes are irrelevant to move, one
+		// sequence per length - the all-strings one - is used)
+		if !r.c.Thorough() {
+			allStr := true
+			for _, v := range st.M {
+				allStr = allStr && v.K == sm.Str
+			}
+			if !allStr {
+				continue
+			}
+		}
 		other := sm.SeqStore(sm.S("d1"), sm.S("d2"))
 		ps := positions(n)
 		for _, kind := range []int{kPlain, kFnProxy, kTabProxy} {
 			for dv := 0; dv < 4; dv++ {
 				if kind != kPlain && dv == 1 {
-					continue
-				}
-				if !r.c.Thorough() && kind == kTabProxy && dv != 0 {
 					continue
 				}
 				T := []TabSpec{specOf(st, kind, n)}
